@@ -286,8 +286,11 @@ func (w WALBatch) replay(fs *fileStore) error {
 			if err != nil && !errors.Is(err, errKeyAlreadyExists) {
 				return err
 			}
-			if err := fs.incrementLastKey(); err != nil {
-				return err
+			// the row id counter follows the ids found in the log rather than
+			// their number: a statement that failed after taking an id left a
+			// gap, and the next insert must not land on a logged id
+			if row.cellID > fs.lastKey {
+				fs.lastKey = row.cellID
 			}
 
 		case OpUpdate:
